@@ -35,6 +35,7 @@ type fconn struct {
 	failAt   int // fail the failAt-th send from now (1-based); 0 = never
 	timeout  time.Duration
 	deadline time.Time
+	failClose bool // Close() reports an error (the connection is closed all the same)
 }
 
 func (c *fconn) Send(p packet.Generic, async bool) error {
@@ -100,6 +101,9 @@ func (c *fconn) Close() error {
 	c.mu.Lock()
 	defer c.mu.Unlock()
 	c.closeLocked()
+	if c.failClose {
+		return errors.New("injected close failure")
+	}
 	return nil
 }
 
@@ -455,6 +459,26 @@ func (w *World) Drop(c int) {
 	w.o.Count("stim/drop")
 	w.record(ev{kind: "stim-drop", conn: c})
 	w.conns[c].peerClose()
+	w.settle()
+}
+
+// FailClose makes the broker-side Close() of connection c report an error from now on (e.g. buffered output could
+// not be flushed to a peer that is gone).  Not a model stimulus: the broker ignores that error everywhere.
+func (w *World) FailClose(c int) {
+	fc := w.conns[c]
+	fc.mu.Lock()
+	fc.failClose = true
+	fc.mu.Unlock()
+	w.o.Count("stim/failclose")
+}
+
+// KeepAliveExpire lets the read timeout of connection c (1.5 x keep alive, set by the broker) run out: for the broker a
+// transport failure on receive
+func (w *World) KeepAliveExpire(c int) {
+	w.op(fmt.Sprintf("br drop %d", c))
+	w.record(ev{kind: "stim-drop", conn: c})
+	w.o.Count("stim/keepalive-expiry")
+	time.Sleep(time.Minute)
 	w.settle()
 }
 
